@@ -20,6 +20,7 @@ CONSTANTS
   HandlerIds = {}
   Kinds = {}
   Keys = {1}
+  BadKeys = {}
   SrcOpts <- Opts_plain
   EvKinds = {"ps", "bt"}
   MaxBatch = 2
